@@ -121,7 +121,7 @@ REG['C19'] = {
                   'EarthBranch::get_element/get_hide_heaven_stem_*/get_zodiac/get_direction/get_opposite/get_ominous/get_combine/combine/get_harm',
                   'SixtyCycle::get_heaven_stem/get_earth_branch/get_sound/get_ten/get_extra_earth_branches', 'Element::*', 'Direction::get_element', 'NineStar::*', 'TwentyEightStar::*', 'TwelveStar::get_ecliptic', 'FetusDay::new', 'SolarDay::get_constellation', 'MinorRen::*'],
     'K': [
-        dict(id='c19_k', prefix=True, min_count=18, exclude=['c19_k_stem_polarity', 'c19_k_branch_hide_middle', 'c19_k_branch_hide_residual'] + ['c19_k_terrain_s%02d' % i for i in range(10)],
+        dict(id='c19_k', prefix=True, min_count=17, exclude=['c19_k_stem_polarity', 'c19_k_branch_hide_middle', 'c19_k_branch_hide_residual'] + ['c19_k_terrain_s%02d' % i for i in range(10)],
              fn='HeavenStem / EarthBranch getters', clause='getter(index) == first-principles rule(index) for every index of the domain',
              paired_leaf=dict(check='c19_attributes', range=(0, 0), chunks=1)),
     ],
@@ -172,7 +172,7 @@ REG['C12'] = {
         dict(id='c12_k_time_order', fn='SolarTime::is_before / is_after / eq', clause='strict lexicographic order on (date, second of day)'),
         dict(id='c12_k_time_accept', fn='SolarTime::new', clause='accepted <=> hour<24, minute<60, second<60 (valid date)'),
         dict(id='c12_k_time_subtract', thorough_only=True, fn='SolarTime::subtract', clause='== 86400*day difference + difference of seconds of day (Kani cross-check of the Verus obligation)'),
-        dict(id='c12_k_jd_roundtrip', sliced=True, quick=dict(boundary=['v:1582', -1], sample=6), fn='SolarTime::get_julian_day / JulianDay::get_solar_time',
+        dict(id='c12_k_jd_roundtrip', sliced=True, quick=dict(boundary=['v:1582', -1], sample=1), fn='SolarTime::get_julian_day / JulianDay::get_solar_time',
              clause='t.get_julian_day().get_solar_time() == t for every valid date and every second of the day',
              paired_leaf=dict(check='c12_roundtrip', range=(1, 9999), chunks=32)),
     ],
@@ -226,5 +226,171 @@ REG['C07'] = {
     ],
     'L': [
         dict(id='c07_pillar_week', check='c07_pillar_week', range=(1, 9999), chunks=64, exhaustive=True, domain='every civil date 0001-01-01..9999-12-31', clause='pillar by three routes == (jdn+49) mod 60; weekday by two routes == (jdn+1) mod 7'),
+    ],
+}
+
+
+def _leaf_only(text):
+    return text
+
+REG['C08'] = {
+    'level': 'other',
+    'design_ref': '5/C08',
+    'technique': 'contract of SixtyCycleDay::from_solar_day / SixtyCycleHour::from_solar_time (year pillar at Lichun, month pillar at each Jie, Five Tigers) executed exhaustively over every civil date and around every Jie instant; Kani on month stepping',
+    'level_text': 'Mostly bounded: the year/month pillar contract is stated over the term table (Y = floor((k-3)/24), Yin month at Lichun, stem by Five Tigers) and executed for every civil date 0001..9998 (day view) and for the second before/at/after every Jie instant plus one random instant per term (time view, incl. agreement with the day view on days without a Jie). The function bodies go through f64 floor and name-table objects and are outside both verifiers; deductive parts: term search (C06 Verus unit) and the carry of SixtyCycleMonth::next (execution + C11).',
+    'level_note': 'exhaustive execution over the finite day domain is complete for the day view but is NOT a proof about the code for all inputs in the sense of K/V; time view is sampled around the switching instants; known findings: day pillar in the reform-year windows (consequence of C03)',
+    'explanation': 'bounded stand-in: exhaustive execution of the day-view contract over all 3.65 M dates, boundary-biased execution of the time view; term-search obligations are proved in C06',
+    'functions': ['SixtyCycleDay::from_solar_day (leaf)', 'SixtyCycleHour::from_solar_time (leaf)', 'SixtyCycleYear::get_first_month (leaf)', 'LunarMonth::get_sixty_cycle (leaf)', 'SixtyCycleMonth::next / get_index_in_year (leaf)'],
+    'V': [
+        dict(id='c06_term_search', template='verus/c06_term_search.rs', clause='the governing term of a date / instant is the latest one starting on or before it (the month pillar switches exactly at Jie days / instants)'),
+    ],
+    'L': [
+        dict(id='c08_day_view', check='c08_day_view', range=(1, 9998), chunks=64, exhaustive=True, domain='every civil date 0001-01-06..9998-12-31', clause='year pillar == (Y-4) mod 60 with Y switching at the Lichun day; month pillar by Jie day and Five Tigers; only legal pairs'),
+        dict(id='c08_time_view', check='c08_time_view', range=(2, 9997), chunks=64, domain='every term x {instant, -1 s, +1 s, random instant}', clause='same rule at the exact term instant; agrees with the day view on days without a Jie; day pillar rolls at 23:00'),
+        dict(id='c11_linear', check='c11_linear', range=(1, 9998), chunks=64, domain='one sexagenary month per year x steps', clause='SixtyCycleMonth::next moves 12*year+index by exactly n'),
+    ],
+}
+
+REG['C09'] = {
+    'level': 'other',
+    'design_ref': '5/C09',
+    'technique': 'hour-pillar contract (branch floor((h+1)/2) mod 12, Five Rats, 23:00 roll) executed over all 60 x 24 combinations; eight characters == four pillars; inverse search soundness/completeness by seeded execution',
+    'level_text': 'Finite part decided completely by execution: all 60 day pillars x 24 hours x {first, last second}: hour branch, hour stem by Five Rats from the (rolled) day stem, index in day, both eight-character providers. Composition on random instants 0002..9997. Inverse search (bounded, VERIF_SEED-driven): every returned instant has the characters, and the double-hour of the queried instant contains a returned instant (double-hours containing a Jie instant skipped).',
+    'level_note': 'the hour-pillar functions build name-table objects through format! and cannot be symbolically executed (DESIGN 2.3); the 1,440-case enumeration is complete for the finite clause; the inverse search is sampled (about 2,000 searches per run), not proved',
+    'explanation': 'exhaustive execution of the finite hour-pillar contract + bounded execution of composition and inverse-search contracts',
+    'functions': ['LunarHour::get_sixty_cycle', 'LunarHour::get_index_in_day', 'SixtyCycleHour::from_solar_time', 'SixtyCycleHour::get_index_in_day', 'SixtyCycleHour::get_eight_char', 'DefaultEightCharProvider / LunarSect2EightCharProvider', 'EightChar::get_solar_times'],
+    'L': [
+        dict(id='c09_hour_pillar', check='c09_hour_pillar', range=(0, 0), chunks=1, exhaustive=True, domain='60 day pillars x 24 hours x 2 seconds', clause='hour pillar rule, 23:00 roll, eight characters == pillars'),
+        dict(id='c09_compose', check='c09_compose', range=(2, 9997), chunks=64, domain='6 random instants per year', clause='eight characters == year, month, day, hour pillars; day/hour by rule'),
+        dict(id='c09_inverse', check='c09_inverse', range=(62, 9870), chunks=64, domain='one search per 5 years (seed-rotated)', clause='inverse search sound and complete per double-hour'),
+    ],
+}
+
+REG['C14'] = {
+    'level': 'proof',
+    'design_ref': '5/C14',
+    'technique': 'Verus on SolarWeek::next extracted verbatim (both loops) + exhaustive execution of the week contract over every civil month x 7 week starts and every lunar month',
+    'level_text': 'Deductive part: SolarWeek::next moves the first day by exactly 7n for every week, every n and any month-length / first-weekday tables consistent with consecutive months (Verus, real loops). Leaf part (exhaustive execution): for every civil month 0001-02..9999-11 and every lunar month, 7 week starts, all indices: count == number of rows, first day on the chosen weekday at day1 + 7*index - offset, 7 consecutive days, coverage, refusal of index == count; week of a date contains it; index in year.',
+    'level_note': 'week count uses an f64 ceil (outside Verus): its contract ceil((offset+len)/7) is a leaf checked for every month; LunarWeek::next mirrors SolarWeek::next and is covered by execution only',
+    'functions': ['SolarWeek::next', 'SolarMonth::get_week_count (leaf)', 'SolarWeek::new / get_first_day / get_days / get_index_in_year (leaf)', 'SolarDay::get_solar_week (leaf)', 'LunarWeek::* (leaf)', 'LunarMonth::get_week_count (leaf)'],
+    'V': [
+        dict(id='c14_week_step', template='verus/c14_week_step.rs', twin_quick=True,
+             twin=[('r.first() == self.first() + 7 * n,', 'r.first() == self.first() + 7 * n + 7,')],
+             clause='SolarWeek::next: the first day moves by exactly 7n',
+             paired_leaf=[dict(id='c14_search', check='c14_solar_weeks', range=(1, 9999), chunks=32)]),
+    ],
+    'L': [
+        dict(id='c14_solar_weeks', check='c14_solar_weeks', range=(1, 9999), chunks=64, exhaustive=True, domain='every civil month x 7 week starts x all indices; 4 dates per month x 7 step counts', clause='week count / first day / 7 days / coverage / week of date / stepping by 7n / index in year'),
+        dict(id='c14_lunar_weeks', check='c14_lunar_weeks', range=(30, 9990), chunks=64, exhaustive=True, domain='every lunar month x 7 week starts x all indices', clause='same for lunar months'),
+    ],
+}
+
+REG['C15'] = {
+    'level': 'proof',
+    'design_ref': '5/C15',
+    'technique': 'Verus on get_nine_day / get_dog_day / get_plum_rain_day / get_phenology_day extracted verbatim against spec functions over an uninterpreted term-day table and the day pillar; exhaustive execution incl. the commanding-stem allotment table',
+    'level_text': 'Deductive part (Verus, real function bodies, any monotone term table): Nines = the 81 days from the winter-solstice day in nines and no other day; Dog days from the third Geng on/after the summer solstice with the 10/20-day middle period decided by the fifth Geng vs start-of-autumn; Plum rains from the first Bing on/after Grain-in-Ear to the first Wei on/after Slight Heat; pentads 0-4 / 5-9 / 10+. Leaf part (exhaustive execution over every civil date 0002..9998): the same four series plus the commanding stem against the classical allotment table re-encoded independently.',
+    'level_note': 'get_hide_heaven_stem_day parses a packed digit string with str slicing (outside Verus): exhaustive execution only; callee contracts: term days (L-TD), pillar of a day (C07), steps_to (C11), SolarDay::next/subtract (C01)',
+    'functions': ['SolarDay::get_nine_day', 'SolarDay::get_dog_day', 'SolarDay::get_plum_rain_day', 'SolarDay::get_phenology_day', 'SolarDay::get_hide_heaven_stem_day (leaf)'],
+    'V': [
+        dict(id='c15_series', template='verus/c15_series.rs', twin_quick=True,
+             twin=[('nine_spec(self.jdn(), TD(24 * self.y() + 24), TD(24 * self.y())),', 'nine_spec(self.jdn() + 1, TD(24 * self.y() + 24), TD(24 * self.y())),')],
+             clause='the four term-anchored series equal their spec functions over TD and the day pillar',
+             paired_leaf=[dict(id='c15_search', check='c15_series', range=(2, 9998), chunks=32)]),
+    ],
+    'L': [
+        dict(id='c15_series', check='c15_series', range=(2, 9998), chunks=64, exhaustive=True, domain='every civil date 0002-01-01..9998-12-31', clause='Nines, Dog days, Plum rains, pentads, commanding stems == oracle re-derived from term days and (jdn+49) mod 60'),
+    ],
+}
+
+REG['C16'] = {
+    'level': 'proof',
+    'design_ref': '5/C16',
+    'technique': 'Verus on DefaultChildLimitProvider::get_info unit conversion and AbstractChildLimitProvider::next (day-overflow loop) extracted verbatim; seeded execution of ChildLimit / fortunes for all four strategies',
+    'level_text': 'Deductive part (Verus, real code): seconds -> (years, months, days, hours, minutes) at 3 d = 1 y, 1 d = 4 mo, 1 h = 5 d, 1 min = 2 h, 1 s = 2 min exactly (259200*Y + 21600*M + 720*D + 30*H + Mi/2 == seconds, field ranges); the calendar addition carries seconds->minutes->hours->days and overflows days month by month, terminating with a day inside the month. Leaf part (bounded, seeded): direction rule, governing Jie, end == birth + units, never before birth / at most 11 years, decade and yearly fortunes, the three other shipped strategies.',
+    'level_note': 'ChildLimit::from_solar_time touches the provider mutex, f64 term instants and name-table pillars: executed on 7 births x 2 genders per year (seed-rotated), not proved; callee contracts: SolarMonth::next/get_day_count (C11/C01), SolarTime::subtract (C12)',
+    'functions': ['DefaultChildLimitProvider::get_info', 'China95ChildLimitProvider::get_info', 'LunarSect2ChildLimitProvider::get_info', 'AbstractChildLimitProvider::next', 'ChildLimit::from_solar_time (leaf)', 'DecadeFortune::* / Fortune::* (leaf)'],
+    'V': [
+        dict(id='c16_child_limit', template='verus/c16_child_limit.rs', twin_quick=True,
+             twin=[('r.minute_count / 2 == abs_diff(term.ti(), birth_time.abs()),', 'r.minute_count / 2 == abs_diff(term.ti(), birth_time.abs()) + 1,')],
+             clause='unit conversion is exact; calendar addition with carries ends on a valid day of the carried month',
+             paired_leaf=[dict(id='c16_search', check='c16_child_limit', range=(2, 9950), chunks=32)]),
+    ],
+    'L': [
+        dict(id='c16_child_limit', check='c16_child_limit', range=(2, 9950), chunks=64, domain='7 births (3 random, 3 within 30 s of a Jie, 1 month end 23:59) x 2 genders per year', clause='direction, governing Jie, units, end time, bounds, fortunes, four strategies'),
+    ],
+}
+
+REG['C17'] = {
+    'level': 'other',
+    'design_ref': '5/C17',
+    'technique': 'defining recurrences of the daily/hourly almanac cycles executed exhaustively over every civil date, every lunar year and every (year branch, month) pair',
+    'level_text': 'Bounded (exhaustive execution over finite day/year domains): day officer == (day branch - month branch) mod 12 (Jian <=> equal) and +1 per day within a sexagenary month; twelve spirits start at the branch fixed by the month (hour: day) branch; 28 mansions +1 per day with luminary == weekday; six-day star (|month| + day - 2) mod 6; moon phase; minor Ren; year nine star descending from 1864 = 1, month star by branch group, day star turning at the Jiazi days nearest the solstices, hour star. The formulas are one-line index arithmetic wrapped in name-table objects (17 s per Kani harness and format!-bound), so the finite domains are enumerated by execution instead.',
+    'level_note': 'exhaustive over dates 0002..9998 and years -1..9999; hours: 12 double-hours of the 1st and 15th of every month; known findings in the reform-year windows (consequence of C03); LunarMonth month star is checked only up to the leap month (after it the deprecated lunar-month pillar is shifted by upstream design), SixtyCycleMonth for all months',
+    'explanation': 'exhaustive execution of the recurrence contracts over their finite domains',
+    'functions': ['SixtyCycleDay::get_duty / get_twelve_star / get_twenty_eight_star / get_nine_star', 'LunarDay::get_six_star / get_phase / get_minor_ren / get_nine_star', 'LunarYear::get_nine_star', 'LunarMonth::get_nine_star', 'SixtyCycleMonth::get_nine_star', 'SixtyCycleHour::get_twelve_star / get_nine_star', 'LunarHour::get_twelve_star / get_nine_star'],
+    'L': [
+        dict(id='c17_day_series', check='c17_day_series', range=(2, 9998), chunks=64, exhaustive=True, domain='every civil date 0002..9998; 12 double-hours on the 1st and 15th of each month', clause='daily and hourly recurrences'),
+        dict(id='c17_year_month_stars', check='c17_year_month_stars', range=(-1, 9999), chunks=16, exhaustive=True, domain='every year -1..9999 and every (year, month)', clause='year / month flying stars'),
+    ],
+}
+
+REG['C18'] = {
+    'level': 'other',
+    'design_ref': '5/C18',
+    'technique': 'exhaustive execution of the decoders (regex / split over the packed tables) over all 720 + 720 pillar pairs, 151 spirits and all years',
+    'level_text': 'Finite domains enumerated completely by execution: for each of 12 month branches x 60 day pillars the spirits, recommended and avoided activities decode without failure into entries of their name lists, at least one spirit per day, recommend and avoid disjoint; likewise 60 day pillars x 12 hour branches; each spirit classed auspicious iff index < 60; the kitchen-god attributes re-derived from the New-Year day pillar for every year 0..9999.',
+    'level_note': 'regex and str::split over ~60 KB literals are outside both verifiers (DESIGN L-RX); complete enumeration of a finite domain, labelled exhaustive execution, not proof',
+    'explanation': 'exhaustive execution over the complete finite domain',
+    'functions': ['God::get_day_gods', 'God::get_luck', 'Taboo::get_day_recommends / get_day_avoids / get_hour_recommends / get_hour_avoids', 'KitchenGodSteed::*'],
+    'L': [
+        dict(id='c18_tables', check='c18_tables', range=(-1, 9999), chunks=16, exhaustive=True, domain='720 + 720 pairs, 151 spirits, years 0..9999', clause='total, well-formed, disjoint, consistent'),
+    ],
+}
+
+REG['C20'] = {
+    'level': 'other',
+    'design_ref': '5/C20',
+    'technique': 'Kani on the festival stepping carry + exhaustive execution of festival / holiday lookups in both directions over the stated ranges',
+    'level_text': 'Deductive part: SolarFestival::next / LunarFestival::next index-year carry (Kani on the arithmetic, index_of from C11). Bounded part (execution): every civil date 1900..2100 and every (year 1..9998, index) for civil festivals; lunar festivals by index fall on a day whose own lookup returns them (or the earlier-listed one), fixed dates, term days, New Year eve = last day (29/30) of the lunar year; every lunar date 1900..2100; all holiday records 2000..2030: real dates, returned for that date only, stepping visits them in strictly increasing order and next(k) lands k places on.',
+    'level_note': 'lookups go through regex over string tables (L-RX): execution only; known findings: New Year eve / Laba in the reform-year windows (consequence of C03)',
+    'explanation': 'bounded / exhaustive execution of the lookup contracts over the ranges stated in the property',
+    'functions': ['SolarFestival::from_ymd / from_index / next', 'LunarFestival::from_ymd / from_index / next', 'LegalHoliday::from_ymd / next'],
+    'L': [
+        dict(id='c20_festivals', check='c20_festivals', range=(1, 9998), chunks=64, domain='civil dates 1900..2100, (year 1..9998, index), lunar dates 1900..2100, stepping samples', clause='festival lookups consistent in both directions; stepping n places along the list'),
+        dict(id='c20_holidays', check='c20_holidays', range=(0, 0), chunks=1, exhaustive=True, domain='every civil date 2000..2030; every record by stepping', clause='holiday table: real dates, membership, strictly increasing stepping'),
+    ],
+}
+
+REG['C10'] = {
+    'level': 'other',
+    'design_ref': '5/C10',
+    'technique': 'Kani on the cache codec (encode/from_cache round trip, bit-precise) + source scan for the single critical section + execution of collision families, long histories, 16-thread overlap and refusal injection in fresh processes',
+    'level_text': 'Partial. Deductive: from_cache(encode(m)) == m for every in-range field tuple (Kani, f64<->int casts bit-precise). Structural (mechanical scan each run): LUNAR_MONTH_CACHE is referenced only inside LunarMonth::from_ym, the key is format!("{}_{}", year, month) (injective on integers by the delimiter), and no fallible call sits between a lock() and the end of its guard scope. Bounded (execution, each leaf process is a fresh process): all digit-collision request families in both orders, random long histories vs the cache-free constructor, per-value memos after clone/step, 16 threads issuing overlapping queries, 18 kinds of refused request at 3 positions followed by valid requests.',
+    'level_note': 'thread interleavings are those the OS produces in the run, not all schedules (no verifier here handles threads: Kani has none, Verus would need its permission types on code it cannot reach); mutual exclusion of std::sync::Mutex and HashMap get/insert semantics are assumed',
+    'explanation': 'codec proved; schedules and histories bounded by execution; see DESIGN 5/C10',
+    'functions': ['LunarMonth::from_ym', 'LunarMonth::from_cache', 'LunarDay::get_solar_day / get_sixty_cycle_day (memo)', 'LunarHour::get_solar_time / get_sixty_cycle_hour (memo)', 'LunarHour::next / LunarDay::next'],
+    'K': [
+        dict(id='c10_k_cache_codec', fn='LunarMonth::from_cache', clause='from_cache([year, month_with_leap, day_count, index, first]) rebuilds exactly those fields for every in-range tuple'),
+    ],
+    'S': ['cache_scan'],
+    'L': [
+        dict(id='c10_history', check='c10_history', range=(1, 999), chunks=32, domain='all digit-collision pairs of years 1..999 in both orders + 40k random requests + memo histories', clause='answer == cache-free constructor, independent of history'),
+        dict(id='c10_threads', check='c10_threads', range=(300, 700), chunks=4, domain='4 processes x 16 threads x 8000 overlapping requests', clause='same answers under concurrency'),
+        dict(id='c10_refusals', check='c10_refusals', range=(0, 17), chunks=18, exhaustive=True, domain='18 kinds of invalid request x 3 history positions, one fresh process each', clause='a refused request never changes, blocks or breaks a later valid request'),
+    ],
+}
+
+REG['C04'] = {
+    'level': 'other',
+    'design_ref': '5/C04',
+    'technique': 'the no-major-term rule written as an executable checker and run over the library\'s own new-moon and term days for every lunar year outside the reform periods',
+    'level_text': 'Bounded only (exhaustive execution, not a proof about the code): for every lunar year 27..9998 except 237..240 the lunation containing the winter solstice is month 11, with 13 lunations between solstice months the first one without a major term is the leap month, and every month the rule demands exists in the library with exactly that first day (so the packed leap table and the month offsets agree with the astronomy).',
+    'level_note': 'both sides are f64 series evaluations (calc_shuo / calc_qi): no verifier here can evaluate them; the checker itself is plain Rust written from the rule',
+    'explanation': 'exhaustive execution of the rule over 9,968 lunar years',
+    'functions': ['LunarYear::get_leap_month (leaf)', 'LunarMonth::new (leaf)', 'ShouXingUtil::calc_shuo / calc_qi (leaf)'],
+    'L': [
+        dict(id='c04_leap_rule', check='c04_leap_rule', range=(27, 9998), chunks=64, exhaustive=True, domain='every lunar year 27..9998 except 237..240', clause='month numbering and leap month == no-major-term rule on the library\'s own days'),
+        dict(id='L-NEW', check='l_new', range=(0, 9999), chunks=32, exhaustive=True, domain='every lunation', clause='months tile (so the rule\'s lunations are the library\'s months)'),
     ],
 }
